@@ -123,6 +123,14 @@ def s19b_same_name_wiring(ctx):
         n_build += 1
         s, tree = built
         names = tree[4]
+        # every way out of the builder returns the candle it builds: a path that hands back an operand unchanged drops the other operand's
+        # high / low / close (or the conversion's source fields)
+        r.inst('%s|every-path-builds' % bj['def'])
+        for pf in all_path_facts(b):
+            if pf.returns and not (pf.ret is not None and pf.ret[0] == 'agg' and pf.ret[1] == 'adt' and str(pf.ret[2]).split('::')[-1] in [t_.rsplit('::', 1)[-1] for t_ in ohlcv_types]):
+                r.violate('%s|path-without-merge' % bj['def'], '%s has a path that returns %s instead of the candle built from all components: on that path %s' % (
+                    bj['def'], tree_str(pf.ret)[:50] if pf.ret else 'nothing', 'the right operand is ignored' if fname == 'add' else 'the source is not converted'), b.file, b.line)
+                break
         is_add = fname == 'add'
         tuple_src = b.arg_count == 1 and b.locals[1]['tyj']['t'] == 'tuple'
         for fi, (fname_, val) in enumerate(zip(names, tree[3])):
